@@ -691,3 +691,125 @@ def c_group_fixed(repo):
         return isinstance(n, ast.Attribute) and n.attr == 'token_end'
     replace_expr(fn, pred, lambda n: ast.Attribute(ast.Name('TC', ast.Load()), 'GroupEnd', ast.Load()))
     return {'reader': src(t)}
+
+
+# ---- option roles (C07, C11, C02)
+
+def _drop_kw(call, name):
+    for i, k in enumerate(call.keywords):
+        if k.arg == name:
+            del call.keywords[i]
+            return True
+    return False
+
+
+def _calls_to(fn, name):
+    return [n for n in ast.walk(fn) if isinstance(n, ast.Call) and isinstance(n.func, ast.Name) and n.func.id == name]
+
+
+@control(['C07'], 'tolerance-not-forwarded-into-env-body', ['R07.b'], 'do not forward the tolerance option from the environment reader to the expression reader')
+def c_tol_drop(repo):
+    t = parse(repo, 'reader')
+    fn = find_func(t, 'read_env')
+    for c in _calls_to(fn, 'read_expr'):
+        if _drop_kw(c, 'tolerance'):
+            return {'reader': src(t)}
+    raise NotApplicable('tolerance keyword')
+
+
+@control(['C07'], 'tolerance-guards-return', ['R07.a'], 'make the tolerance test of the group reader select between two non-raising branches')
+def c_tol_branch(repo):
+    t = parse(repo, 'reader')
+    fn = find_func(t, 'read_arg')
+    for i, s_ in enumerate(fn.body):
+        if isinstance(s_, ast.If) and 'tolerance' in ast.unparse(s_.test) and any(isinstance(x, ast.Raise) for x in ast.walk(s_)):
+            s_.body = [ast.Return(ast.Call(ast.Name('arg', ast.Load()), [], []))]
+            return {'reader': src(t)}
+    raise NotApplicable('tolerance test')
+
+
+@control(['C07'], 'tolerant-branch-consumes', ['R07.c'], 'consume a token on the tolerant continuation of the environment error test')
+def c_tol_consumes(repo):
+    t = parse(repo, 'reader')
+    fn = find_func(t, 'read_env')
+    for n in ast.walk(fn):
+        if isinstance(n, ast.If) and 'tolerance' in ast.unparse(n.test) and n.orelse and isinstance(n.orelse[0], ast.If):
+            inner = n.orelse[0]
+            inner.orelse = [ast.Expr(ast.Call(ast.Attribute(ast.Name(fn.args.args[0].arg, ast.Load()), 'forward', ast.Load()),
+                                              [ast.Constant(1)], []))]
+            return {'reader': src(t)}
+    raise NotApplicable('error test')
+
+
+@control(['C11'], 'raw-reader-parses', ['R11.a'], 'call the expression reader from the raw reader')
+def c_raw_parses(repo):
+    t = parse(repo, 'reader')
+    fn = find_func(t, 'read_skip_env')
+    idx = 1 if isinstance(fn.body[0], ast.Expr) and isinstance(fn.body[0].value, ast.Constant) else 0
+    fn.body.insert(idx, ast.Expr(ast.Call(ast.Name('read_expr', ast.Load()), [ast.Name(fn.args.args[0].arg, ast.Load())], [])))
+    return {'reader': src(t)}
+
+
+@control(['C11'], 'builtin-skip-names-separate', ['R11.b'], 'test the built-in skip names separately from the user-supplied ones')
+def c_skip_separate(repo):
+    t = parse(repo, 'reader')
+    fn = find_func(t, 'read_tex')
+    for c in _calls_to(fn, 'read_expr'):
+        for k in c.keywords:
+            if k.arg == 'skip_envs' and isinstance(k.value, ast.BinOp):
+                k.value = k.value.right
+    d = find_func(t, 'read_expr')
+    for n in ast.walk(d):
+        if isinstance(n, ast.If) and isinstance(n.test, ast.Compare) and 'skip_envs' in ast.unparse(n.test):
+            n.test = ast.BoolOp(ast.Or(), [n.test, ast.Compare(n.test.left, [ast.In()], [ast.Name('SKIP_ENV_NAMES', ast.Load())])])
+            return {'reader': src(t)}
+    raise NotApplicable('skip test')
+
+
+@control(['C11'], 'skip-list-not-forwarded', ['R11.c'], 'do not forward the skip list into environment bodies')
+def c_skip_drop(repo):
+    t = parse(repo, 'reader')
+    fn = find_func(t, 'read_env')
+    for c in _calls_to(fn, 'read_expr'):
+        if _drop_kw(c, 'skip_envs'):
+            return {'reader': src(t)}
+    raise NotApplicable('skip_envs keyword')
+
+
+@control(['C11'], 'raw-scan-wrong-closer', ['R11.d'], 'scan for \\end{ without the environment name')
+def c_raw_closer(repo):
+    t = parse(repo, 'reader')
+    fn = find_func(t, 'read_skip_env')
+    n = _first(fn, lambda x: is_call_attr(x, 'startswith'))
+    n.args[0] = ast.Constant('\\end{')
+    return {'reader': src(t)}
+
+
+@control(['C02'], 'mode-not-forwarded-into-arguments', ['R02.a'], 'do not forward the mode from the argument reader to the group reader')
+def c_mode_drop(repo):
+    t = parse(repo, 'reader')
+    fn = find_func(t, 'read_arg_required')
+    for c in _calls_to(fn, 'read_arg'):
+        if _drop_kw(c, 'mode'):
+            return {'reader': src(t)}
+    raise NotApplicable('mode keyword')
+
+
+@control(['C02'], 'begin-branch-ignores-definition-mode', ['R02.a'], 'open environments also inside \\newcommand definitions')
+def c_begin_mode(repo):
+    t = parse(repo, 'reader')
+    fn = find_func(t, 'read_expr')
+    for n in ast.walk(fn):
+        if isinstance(n, ast.If) and isinstance(n.test, ast.BoolOp) and 'MODE_SPECIAL' in ast.unparse(n.test):
+            n.test = n.test.values[0]
+            return {'reader': src(t)}
+    raise NotApplicable('begin branch')
+
+
+@control(['C02'], 'item-does-not-stop-at-end', ['R02.b'], 'let an item body run past \\end')
+def c_item_stop(repo):
+    t = parse(repo, 'reader')
+    fn = find_func(t, 'read_item')
+    tup = _first(fn, lambda x: isinstance(x, ast.Tuple) and any(isinstance(e, ast.Constant) and e.value == 'end' for e in x.elts))
+    tup.elts = [e for e in tup.elts if not (isinstance(e, ast.Constant) and e.value == 'end')]
+    return {'reader': src(t)}
